@@ -39,7 +39,12 @@ RULE = (
     "forests of nested disable_message_validation(ignore) blocks left normally, by an ordinary exception (ValueError, KeyError, "
     "StopIteration), by a BaseException (KeyboardInterrupt, SystemExit, GeneratorExit, asyncio.CancelledError, a custom "
     "BaseException subclass) or entered in a generator that is suspended inside the block and then closed / dropped, and probes with an "
-    "invalid assignment inside every block and after every exit. Two more campaigns draw op sequences (start / resume / close / "
+    "invalid assignment inside every block and after every exit; in half of the forests blocks are also entered through DECORATOR "
+    "use - `@disable_message_validation(ignore)` on functions that are then called: a decorator object of the node's own or one of "
+    "1-2 decorator objects shared by the whole forest and applied to two functions each (nodes below such a node mostly call the "
+    "same function again or its sibling: one decorator object entered again while still active), the decorated function calling "
+    "itself 0-2 more times (probes on entry of every level and after every inner call returned), decorated calls inside with blocks "
+    "and with blocks inside decorated calls, left normally or by an exception that propagates through every level. Two more campaigns draw op sequences (start / resume / close / "
     "caller probe) over 1-2 generators or hand-driven coroutines that suspend INSIDE their own disable block: the caller, which is "
     "in no block, probes while they are suspended ('suspended') or only once none is inside a real block ('interleaved'). "
     "Two further campaigns ('threads', 'contexts') draw a schedule of up to 20 operations over 2-4 REAL threads, 0-3 asyncio tasks "
@@ -47,7 +52,9 @@ RULE = (
     "contextvars.copy_context(); the harness owns the schedule (strict baton hand-over through semaphores / futures: one "
     "operation at a time, nothing concurrent, every thread joined and every task finished at the end of the case; a 30 s "
     "watchdog only turns a stuck hand-over into a harness error). Operations: enter a disable block (ignore=True/False, "
-    "nesting <= 3) as a real with statement on the actor's stack, leave the innermost own block normally or by one of 7 "
+    "nesting <= 3) as a real with statement on the actor's stack - threads also by calling one of two functions decorated with THE "
+    "one decorator object the case keeps per ignore flag (the same decorated function active in several threads at once, and "
+    "again in the same thread), as do the programs executed by Context.run - leave the innermost own block normally or by one of 7 "
     "exceptions, probe (an out-of-domain store, then an in-domain store, on the actor's own or on ONE shared message object), "
     "copy the current context, Context.run(copy) by the harness or a thread (a probe, optionally followed by a block of its own "
     "entered, probed and left inside that run), create a task (from the harness or a task), start a thread (from a thread). "
@@ -60,7 +67,7 @@ RULE = (
     "non-first position of a sequence, or out-of-domain content in a reused, mutated sequence object, or an out-of-domain store "
     "through a view bound inside a since-left disable block, or an "
     "accepted boundary value, or a disable forest with a block left by "
-    "exception, or a threads/contexts schedule with a judged store outside every block while another actor is inside one / "
+    "exception or with a real decorator object entered again while it is active, or a threads/contexts schedule with a judged store outside every block while another actor is inside one / "
     "after non-nested blocks of two actors / in a context derived outside every block / derived inside a since-left block; distinct = (kind, element type, form, cause, position class, neighbour class, length class) / "
     "(kind, type, form, boundary classes) / forest signature."
 )
@@ -97,6 +104,11 @@ ASSUME = [
     "open at derivation has been left and the context is in none of its own, the store MUST be validated. A new thread "
     "starts outside every block (unless the interpreter copies the starter's context, sys.flags.thread_inherit_context). "
     "In-domain stores are only judged where validation must be on",
+    "disable_message_validation(...) used as a decorator is inside the domain: it is a contextlib.contextmanager function, whose "
+    "objects are documented ContextDecorators (a fresh block per call of the decorated function); a call of a decorated function "
+    "is 'inside an explicit disable block' from entry to exit (normal or by exception) exactly like the with statement it stands "
+    "for. NOT generated: re-entering one manager object with two with statements (single use on the unchanged code: RuntimeError), "
+    "decorated generator / coroutine functions (the block is left before the body runs)",
     "disable-block probes use assignments that ctypes itself accepts silently (int8=200, byte=256, float32[]=[0,1e39,..], "
     "struct=()), so 'raised' can only come from the validators",
 ]
@@ -553,9 +565,32 @@ def _probe_assign(kind: str):
         raise HarnessError(kind)
 
 
+def _via_sig(nd: dict) -> str:
+    """'' for a with statement; '@' = a decorator object of its own, '@0a' = function a decorated by shared decorator
+    object 0; '^2' = the decorated function calls itself two more times before it runs its body."""
+    via = nd.get("via")
+    if not via:
+        return ""
+    return "@" + (f"{via['d']}{'ab'[via['f']]}" if via["d"] >= 0 else "") + (f"^{via['rec']}" if via["rec"] else "")
+
+
 def _sig(nodes) -> str:
-    return "".join(("I" if n["ig"] else "R") + ("!" + _exit_kind(n) if n["exc"] else "") + ("(" + _sig(n["ch"]) + ")" if n["ch"] else "")
-                   for n in nodes)
+    return "".join(("I" if n["ig"] else "R") + _via_sig(n) + ("!" + _exit_kind(n) if n["exc"] else "")
+                   + ("(" + _sig(n["ch"]) + ")" if n["ch"] else "") for n in nodes)
+
+
+def _decorate(deco):
+    """A function decorated with `deco` (an object returned by disable_message_validation(...), used as a DECORATOR);
+    with level > 0 it calls itself - through its decorated name, like any recursive function - before it goes on."""
+
+    @deco
+    def fn(level: int, enter, back):
+        enter(level)
+        if level > 0:
+            fn(level - 1, enter, back)
+            back(level)
+
+    return fn
 
 
 def run_disable_case(trace: dict, res: Result):
@@ -564,7 +599,14 @@ def run_disable_case(trace: dict, res: Result):
         res.count("disable:state-reset-before-case")
     _reset_validation()
     kind = trace["probe"]
-    st_ = {"last_abnormal": "", "probes": 0}
+    st_ = {"last_abnormal": "", "probes": 0, "reentered": False}
+    # decorator objects shared by the whole case (entered again while still active when nodes using them nest), each
+    # applied to two functions
+    shared = []
+    for ig in trace.get("decos", []):
+        deco = V.disable_message_validation(ignore=bool(ig))
+        shared.append((bool(ig), [_decorate(deco), _decorate(deco)]))
+    active = []  # shared decorator objects whose decorated functions are executing right now
 
     def probe(depth: int, where: str):
         st_["probes"] += 1
@@ -580,6 +622,8 @@ def run_disable_case(trace: dict, res: Result):
             la = st_["last_abnormal"]
             why = ("normal-exit" if not la else "exception-exit" if la in ORDINARY_EXITS
                    else "generator-close" if la in GEN_EXITS else "baseexception-exit")
+            if st_["reentered"]:
+                why += "-of-decorator-object-entered-again-while-active"
             raise Violation(f"disable/validation-off-after-{why}",
                             f"invalid {kind} probe accepted outside every real disable block ({where}; forest {_sig(trace['tree'])})",
                             trace)
@@ -592,10 +636,59 @@ def run_disable_case(trace: dict, res: Result):
         for i, ch in enumerate(nd["ch"]):
             node(ch, d2, f"{name}.{i}")
 
+    def decorated_node(nd: dict, depth: int, name: str, via: dict, ek: str) -> int:
+        """The block(s) of this node are entered by CALLING a decorated function; returns the number of levels."""
+        levels = via["rec"] + 1
+        if via["d"] >= 0:
+            if not (0 <= via["d"] < len(shared)) or shared[via["d"]][0] != bool(nd["ig"]):
+                raise HarnessError(f"node {name}: shared decorator {via['d']} does not exist / has another ignore flag")
+            fn = shared[via["d"]][1][via["f"]]
+            res.count("disable:via:decorator-object-shared")
+            if not nd["ig"] and (via["d"] in active or levels > 1):
+                st_["reentered"] = True
+                res.count("disable:real-decorator-object-entered-again-while-active")
+        else:
+            fn = _decorate(V.disable_message_validation(ignore=nd["ig"]))  # defined and decorated on the spot
+            res.count("disable:via:decorator-object-own")
+            if not nd["ig"] and levels > 1:
+                st_["reentered"] = True
+                res.count("disable:real-decorator-object-entered-again-while-active")
+        res.count(f"disable:decorated-call-depth:{levels}")
+        marker = _make_exit(ek) if ek else None
+
+        def d_at(level: int) -> int:  # real blocks around the code of recursion level `level` (outermost call = via['rec'])
+            return depth + (0 if nd["ig"] else levels - level)
+
+        def enter(level: int):
+            if level > 0:
+                probe(d_at(level), f"on entry of {name}, call {levels - level} of {levels}")
+                return
+            body(nd, d_at(0), name)
+            if marker is not None:
+                raise marker  # propagates through every level of the recursion
+
+        def back(level: int):
+            probe(d_at(level), f"in {name}, call {levels - level} of {levels} after the inner call returned")
+
+        active.append(via["d"])
+        try:
+            fn(levels - 1, enter, back)
+        except BaseException as e:
+            if e is not marker:
+                raise
+        finally:
+            active.pop()
+        return levels
+
     def node(nd: dict, depth: int, name: str):
         d2 = depth + (0 if nd["ig"] else 1)
         ek = _exit_kind(nd)
-        if ek in GEN_EXITS:
+        via = nd.get("via")
+        if via:
+            if ek in GEN_EXITS:
+                raise HarnessError(f"node {name}: a generator exit needs a with statement")
+            decorated_node(nd, depth, name, via, ek)
+        elif ek in GEN_EXITS:
             def g():
                 with V.disable_message_validation(ignore=nd["ig"]):
                     body(nd, d2, name)
@@ -623,6 +716,8 @@ def run_disable_case(trace: dict, res: Result):
         else:
             with V.disable_message_validation(ignore=nd["ig"]):
                 body(nd, d2, name)
+        if not via:
+            res.count("disable:via:with-statement")
         if ek and not nd["ig"]:
             st_["last_abnormal"] = ek
         cls_ = "normal" if not ek else "exception" if ek in ORDINARY_EXITS else "generator" if ek in GEN_EXITS else "baseexception"
@@ -638,10 +733,15 @@ def run_disable_case(trace: dict, res: Result):
     finally:
         _reset_validation()
     sig = _sig(trace["tree"])
-    if "!" in sig:
+    if "!" in sig or st_["reentered"]:
         res.shape("dis", sig, kind)
-        res.count("nontrivial:disable-forest-with-exception-exit")
-        res.sample({"disable-forest": sig, "probe": kind}, limit=5)
+        if "!" in sig:
+            res.count("nontrivial:disable-forest-with-exception-exit")
+        if st_["reentered"]:
+            res.count("nontrivial:disable-forest-with-decorator-object-entered-again-while-active")
+            res.sample({"disable-forest-decorators": sig, "shared-decorators-ignore": trace.get("decos", []), "probe": kind}, limit=5)
+        else:
+            res.sample({"disable-forest": sig, "probe": kind}, limit=5)
 
 
 class _Yield:
@@ -804,22 +904,39 @@ def _ctx_probe(kind: str, msg, n: int) -> dict:
     return o
 
 
-def _ctx_program(prog, kind: str, msg, n: int) -> list:
+def _ctx_program(prog, kind: str, msg, n: int, fn=None) -> list:
     """What `Context.run` executes: a probe, and with prog = [ignore, exit kind] also a block of its own that is entered
     and left inside this one run, probed inside and afterwards."""
     obs = [("", _ctx_probe(kind, msg, n))]
     if prog is not None:
         marker = _make_exit(prog[1]) if prog[1] else None
+
+        def inside():
+            obs.append(("inside", _ctx_probe(kind, msg, n + 1)))
+            if marker is not None:
+                raise marker
+
         try:
-            with V.disable_message_validation(ignore=prog[0]):
-                obs.append(("inside", _ctx_probe(kind, msg, n + 1)))
-                if marker is not None:
-                    raise marker
+            if fn is not None:  # the block is entered by calling a decorated function (shared by the whole case)
+                fn(inside)
+            else:
+                with V.disable_message_validation(ignore=prog[0]):
+                    inside()
         except BaseException as e:
             if e is not marker:
                 raise
         obs.append(("after", _ctx_probe(kind, msg, n + 2)))
     return obs
+
+
+def _decorate_call(deco):
+    """A function decorated with `deco` (disable_message_validation(...) used as a decorator) that runs the given thunk."""
+
+    @deco
+    def call(thunk):
+        return thunk()
+
+    return call
 
 
 def _exec_simple(cmd):
@@ -901,15 +1018,22 @@ class _ThreadActor:
             cmd = self._next()
             op = cmd[0]
             if op == "enter":
-                marker = None
+                box = []
+
+                def inside():
+                    ek = self._body(depth + 1)
+                    if ek:
+                        box.append(_make_exit(ek))
+                        raise box[0]
+
                 try:
-                    with V.disable_message_validation(ignore=cmd[1]):
-                        ek = self._body(depth + 1)
-                        if ek:
-                            marker = _make_exit(ek)
-                            raise marker
+                    if len(cmd) > 2 and cmd[2] is not None:  # a decorated function: the call enters the block
+                        cmd[2](inside)
+                    else:
+                        with V.disable_message_validation(ignore=cmd[1]):
+                            inside()
                 except BaseException as e:
-                    if e is not marker:
+                    if not box or e is not box[0]:
                         raise
             elif op == "leave":
                 if depth == 0:
@@ -1014,10 +1138,10 @@ class _TaskActor:
 
 
 class _Blk:
-    __slots__ = ("real", "open", "owner", "seq")
+    __slots__ = ("real", "open", "owner", "seq", "via")
 
-    def __init__(self, real: bool, owner: str, seq: int):
-        self.real, self.open, self.owner, self.seq = real, True, owner, seq
+    def __init__(self, real: bool, owner: str, seq: int, via: int = 0):
+        self.real, self.open, self.owner, self.seq, self.via = real, True, owner, seq, via
 
 
 class _EC:
@@ -1049,6 +1173,26 @@ def run_contexts_case(trace: dict, res: Result):
     sig = []
     flags = set()
     inherit = bool(getattr(sys.flags, "thread_inherit_context", 0))  # interpreters whose new threads copy the starter's context
+    decos, fns = {}, {}
+
+    def deco_fn(ig: bool, via: int):
+        """via 0: a with statement (None); 1 / 2: one of the two functions decorated with THE decorator object the case
+        keeps per ignore flag - every thread and every Context.run program that uses it calls the same function object."""
+        if not via:
+            return None
+        if via not in (1, 2):
+            raise HarnessError(f"contexts: unknown way of entering a block {via!r}")
+        if ig not in decos:
+            decos[ig] = V.disable_message_validation(ignore=ig)
+        if (ig, via) not in fns:
+            fns[(ig, via)] = _decorate_call(decos[ig])
+        return fns[(ig, via)]
+
+    def note_via(ig: bool, via: int):
+        res.count(f"{sub}:block-entered-through:{'decorated-function' if via else 'with-statement'}")
+        if via and not ig and any(b.open and b.real and b.via for e in ecs.values() for b in e.own):
+            flags.add("one-decorator-object-entered-again-while-active")
+            res.count(f"{sub}:real-decorator-object-entered-again-while-active")
 
     def story():
         return " ".join(sig)
@@ -1138,8 +1282,12 @@ def run_contexts_case(trace: dict, res: Result):
         if what == "run":
             need(0 <= op[1] < len(copies) and op[2] in ecs and ecs[op[2]].kind in ("main", "thread"), op)
             ec, runner, prog, ush = copies[op[1]], ecs[op[2]], op[3], bool(op[4])
-            sig.append(f"{ec.name}>{runner.name}" + ("" if prog is None else "[" + ("I" if prog[0] else "R") + ("!" + prog[1] if prog[1] else "") + "]"))
-            obs = do(runner, ("run", ec.ctx, prog, kind, msg_of(ec, ush), n))
+            pvia = prog[2] if prog is not None and len(prog) > 2 else 0
+            sig.append(f"{ec.name}>{runner.name}" + ("" if prog is None else "[" + ("I" if prog[0] else "R") + (f"@{pvia}" if pvia else "")
+                                                     + ("!" + prog[1] if prog[1] else "") + "]"))
+            if prog is not None:
+                note_via(bool(prog[0]), pvia)
+            obs = do(runner, ("run", ec.ctx, prog, kind, msg_of(ec, ush), n, deco_fn(bool(prog[0]), pvia) if prog is not None else None))
             for where, o in obs:
                 judge(ec, o, f"Context.run, {where or 'directly'}", runner=None if runner.kind == "main" else runner,
                       prog_real=(where == "inside" and not prog[0]), use_shared=ush)
@@ -1148,11 +1296,14 @@ def run_contexts_case(trace: dict, res: Result):
         ec = ecs[op[1]]
         if what == "enter":
             need(ec.kind != "main", op)
-            sig.append(f"{ec.name}+{'I' if op[2] else 'R'}")
+            via = op[3] if len(op) > 3 else 0
+            need(not via or ec.kind == "thread", op)  # a decorated coroutine function would leave the block before it runs
+            sig.append(f"{ec.name}+{'I' if op[2] else 'R'}" + (f"@{via}" if via else ""))
             if not op[2] and others_inside(ec):
                 flags.add("blocks-of-two-contexts-open-at-once")
-            ec.actor.call(("enter", bool(op[2])))
-            ec.own.append(_Blk(not op[2], ec.name, n))
+            note_via(bool(op[2]), via)
+            ec.actor.call(("enter", bool(op[2]), deco_fn(bool(op[2]), via)))
+            ec.own.append(_Blk(not op[2], ec.name, n, via))
         elif what == "leave":
             need(ec.kind != "main" and ec.own and ec.own[-1].open, op)
             need(op[2] == "" or op[2] in CTX_EXITS, op)
@@ -1587,7 +1738,8 @@ def suspended_case(draw, sub: str):
 
 
 _CTX_EXIT = st.one_of(st.just(""), st.just(""), st.sampled_from(CTX_EXITS))
-_CTX_PROG = st.one_of(st.none(), st.tuples(st.booleans(), _CTX_EXIT).map(list))
+_CTX_PROG = st.one_of(st.none(), st.tuples(st.booleans(), _CTX_EXIT).map(list),
+                      st.tuples(st.booleans(), _CTX_EXIT, st.sampled_from([1, 1, 2])).map(list))
 _IGNORE = st.sampled_from([False, False, False, True])
 
 
@@ -1632,7 +1784,9 @@ def contexts_case(draw, sub: str):
             ncopy += 1
         elif act == "enter":
             ig = draw(_IGNORE)
-            ops.append(["enter", who, ig])
+            # threads also enter blocks by calling one of two functions decorated with the case's one decorator object
+            via = draw(st.sampled_from([0, 0, 1, 1, 2])) if who[0] == "t" else 0
+            ops.append(["enter", who, ig, via] if via else ["enter", who, ig])
             stack[who].append(ig)
         elif act == "leave":
             ops.append(["leave", who, draw(_CTX_EXIT)])
@@ -1652,9 +1806,48 @@ def contexts_case(draw, sub: str):
 _BOOL = st.booleans()
 
 
+_DECO_EXIT = st.one_of(st.just(""), st.just(""), st.sampled_from(ORDINARY_EXITS), st.sampled_from(BASE_EXITS))
+
+
+@st.composite
+def _deco_forest(draw):
+    """A forest in which blocks are also entered by CALLING functions decorated with `@disable_message_validation(...)`:
+    0-2 decorator objects shared by the case, each applied to two functions (nodes below a node that uses one mostly use
+    the same one: a function calling itself or its sibling), decorator objects of their own, recursion depth 1-3, mixed
+    with with statements (and generators suspended in a with block) in any nesting."""
+    decos = draw(st.lists(_IGNORE, min_size=1, max_size=2))
+
+    def node(depth: int, above):
+        c = draw(st.integers(0, 9))
+        via = None
+        if above is not None and c < 6:
+            via = {"d": above["d"], "f": draw(st.integers(0, 1)), "rec": 0}  # calls itself / its sibling
+        elif c < 7:
+            via = {"d": draw(st.integers(0, len(decos) - 1)), "f": draw(st.integers(0, 1)), "rec": 0}
+        elif c < 8:
+            via = {"d": -1, "f": 0, "rec": 0}
+        if via is not None:
+            via["rec"] = draw(st.sampled_from([0, 0, 0, 1, 1, 2]))
+            ig = decos[via["d"]] if via["d"] >= 0 else draw(_IGNORE)
+            exc = draw(_DECO_EXIT)
+        else:
+            ig, exc = draw(st.booleans()), draw(_EXIT)
+        nxt = via if via is not None and via["d"] >= 0 else above
+        ch = [node(depth - 1, nxt) for _ in range(draw(st.integers(0, 3 if depth > 1 else 2)))] if depth > 0 else []
+        nd = {"ig": ig, "exc": exc, "ch": ch}
+        if via is not None:
+            nd["via"] = via
+        return nd
+
+    tree = [node(3, None) for _ in range(draw(st.integers(1, 3)))]
+    return {"decos": decos, "tree": tree}
+
+
 def disable_case():
-    return st.builds(lambda tree, probe: {"sub": "disable", "tree": tree, "probe": probe},
-                     st.lists(_node(3), min_size=1, max_size=4), st.sampled_from(["int", "byte", "farr", "struct"]))
+    probe = st.sampled_from(["int", "byte", "farr", "struct"])
+    plain = st.builds(lambda tree, p: {"sub": "disable", "tree": tree, "probe": p}, st.lists(_node(3), min_size=1, max_size=4), probe)
+    deco = st.builds(lambda f, p: {"sub": "disable", "decos": f["decos"], "tree": f["tree"], "probe": p}, _deco_forest(), probe)
+    return st.one_of(plain, deco)
 
 
 # ------------------------------------------------------------------------------------------------
